@@ -57,6 +57,7 @@ _KNOWN_STATE_KEYS = frozenset(
 # 🛡️ Guard combinators evaluated by the engine itself. These are never
 #    user-supplied implementations and must never be emitted as stub names.
 _COMPOSITE_OPERATORS = frozenset({"and", "or", "not"})
+_BUILTIN_STATE_IN = "stateIn"
 
 # 📝 Purely cosmetic Stately/editor keys — safe to ignore without warning.
 _IGNORED_STATE_KEYS = frozenset({"description"})
@@ -102,6 +103,12 @@ class GuardIR:
             return tuple(out)
         # 📝 A childless composite operator has nothing to implement.
         if self.type in _COMPOSITE_OPERATORS:
+            return ()
+        # 📍 `stateIn` is answered by the engine from the active
+        #    configuration. A generated stub would be registered as a user
+        #    guard, win over the built-in and turn every such guard into a
+        #    constant.
+        if self.type == _BUILTIN_STATE_IN:
             return ()
         return (self.type,)
 
